@@ -425,6 +425,7 @@ def check_prefix_input(out, facts):
     why = []
     ps = paths(t)
     for p in ps:
+        p = norm_arms(p)
         arms = [e for e in p if e[0] == 'ARM']
         empty = [a for a in arms if isinstance(a[1], tuple) and a[1][0] == 'if' and sym.vstr(a[1][1]) == 'is_empty(into)']
         # `into.split_first_mut()` is None exactly when `into` is empty: that arm is infeasible after the empty test
